@@ -436,3 +436,234 @@ def observe(c):
     return dict(mask=g(lambda: c.level_mask.mask), hashes=[g(lambda l=l: c.get_hash(l)) for l in range(4)],
                 depths=[g(lambda l=l: c.get_depth(l)) for l in range(4)], hash=g(lambda: c.hash),
                 repr=g(lambda: c.calculate_representation_hash()), pyhash=g(lambda: c.__hash__()))
+
+
+# ----------------------------------------------------------------------------- round 10: byte-wise interacting sibling fields,
+# a tree next to its pruned twins
+
+# child depths that exercise both bytes of the 2-byte depth field a parent hashes (low byte 0 / small / 0x7f-0x80 / 0xfe-0xff with
+# every high byte 0..3 that a legal depth can have)
+DEPTH_POINTS = (0, 1, 2, 50, 127, 128, 255, 256, 257, 300, 511, 512, 513, 767, 768, 1000, 1021, 1022)
+
+
+def byte_relation(a, b, width=2):
+    """how two fixed-width big-endian fields relate BYTE BY BYTE, e.g. '><' = a has the larger high byte, b the larger low byte"""
+    out = ''
+    for k in reversed(range(width)):
+        x, y = (a >> (8 * k)) & 255, (b >> (8 * k)) & 255
+        out += '<' if x < y else '>' if x > y else '='
+    return out
+
+
+def bytewise_depth(rng, top=1022):
+    """a depth 0..top whose high and low byte are chosen INDEPENDENTLY (each from its own boundary / random mix)"""
+    while True:
+        hi = rng.randrange((top >> 8) + 1)
+        lo = rng.choice([0, 1, rng.randrange(256), rng.randrange(256), 127, 128, 254, 255])
+        if hi * 256 + lo <= top:
+            return hi * 256 + lo
+
+
+def spine(rng, depth):
+    """a chain in which node i has depth i (0..depth), data bits varying along it; built ONCE and shared by everything that needs a
+    sub-DAG of a given depth"""
+    nodes = [(ORD, rand_bits(rng, rng.choice([0, 1, 8, 9])), ())]
+    for i in range(depth):
+        nodes.append((ORD, rand_bits(rng, rng.choice([0, 0, 0, 1, 5, 8])), (i,)))
+    return nodes
+
+
+def sibling_depth_dag(rng, n_random, top=1023):
+    """One DAG: a spine (node i = a sub-DAG of depth i, i = 0..top) followed by cells with 2-4 references whose children's depths are
+    chosen independently of each other: every ordered pair of DEPTH_POINTS, then `n_random` cells whose 2-4 children are spine nodes
+    of byte-wise independent depths or EARLIER cells of this class (so a cell's own depth - the value its parent hashes - is itself
+    the result of such a combination), in every order.  Returns (nodes, focus) with focus = indices of the cells after the spine."""
+    nodes = spine(rng, top)
+    focus = []
+
+    def add(refs):
+        nodes.append((ORD, rand_bits(rng, rng.choice([0, 1, 7, 8, 21, 1023])), tuple(refs)))
+        focus.append(len(nodes) - 1)
+
+    pts = [d for d in DEPTH_POINTS if d <= top]
+    for a in pts:
+        for b in pts:
+            add((a, b))
+    for t in range(n_random):
+        k = rng.choice([2, 2, 3, 3, 4])
+        refs = []
+        for _ in range(k):
+            r = rng.random()
+            if r < 0.2 and len(focus) > 4:
+                refs.append(rng.choice(focus))
+            elif r < 0.25:
+                refs.append(top)                    # a child at the depth limit: the parent is not a legal cell
+            else:
+                refs.append(bytewise_depth(rng, top - 1))
+        if t % 3 == 0:
+            refs.sort(reverse=t % 2 == 0)            # deepest first / deepest last as well as random positions
+        add(refs)
+    return nodes, focus
+
+
+def sub_dag(nodes, roots):
+    """the sub-DAG reachable from `roots` (indices), renumbered, child-before-parent; -> (nodes', {old index: new index})"""
+    keep, stack = set(), list(roots)
+    while stack:
+        i = stack.pop()
+        if i in keep:
+            continue
+        keep.add(i)
+        stack.extend(nodes[i][2])
+    new = {}
+    out = []
+    for i in sorted(keep):
+        new[i] = len(out)
+        k, b, r = nodes[i]
+        out.append((k, b, tuple(new[j] for j in r)))
+    return out, new
+
+
+def prune_set(nodes, infos, root, chosen, level=1):
+    """`prune_random` with the choice made by the caller: the tree `root` of (nodes, infos), living under `level` (virtual) enclosing
+    Merkle cells, with every node of `chosen` (except the root, pruned branches and spec-invalid nodes) replaced by its pruned branch.
+    -> (DagBuilder, index of the new root, set of the nodes actually pruned)"""
+    db = DagBuilder()
+    memo = {}
+    pruned = set()
+
+    def go(i, pd, is_root):
+        if (i, pd) in memo:
+            return memo[(i, pd)]
+        kind, bits, refs = nodes[i]
+        inf = infos[i]
+        can = (not is_root) and inf is not None and inf.valid and kind != PRUNED and pd >= 1
+        if can and i in chosen:
+            k, b, r = make_pruned_of(inf, pd)
+            j = db.add(k, b, r)
+            pruned.add(i)
+        else:
+            cpd = pd + 1 if kind in (MPROOF, MUPDATE) else pd
+            kids = [go(c, cpd, False) for c in refs]
+            if kind == MPROOF and all(db.ok(k) for k in kids):
+                bits = mproof_bits(db.infos[kids[0]])
+            if kind == MUPDATE and all(db.ok(k) for k in kids):
+                bits = mupdate_bits(db.infos[kids[0]], db.infos[kids[1]])
+            j = db.add(kind, bits, kids)
+        memo[(i, pd)] = j
+        return j
+
+    r = go(root, level, True)
+    return db, r, pruned
+
+
+def descendants(nodes, root):
+    seen, stack = set(), list(nodes[root][2])
+    while stack:
+        i = stack.pop()
+        if i not in seen:
+            seen.add(i)
+            stack.extend(nodes[i][2])
+    return sorted(seen)
+
+
+def pruned_twins(rng, size=None, exotic=False):
+    """One DAG holding a tree (ordinary cells; with `exotic` also library / Merkle cells inside) NEXT TO its pruned twins: the same
+    tree with each single proper sub-tree replaced by its pruned branch (the hash and depth it stores are the right ones), with random
+    sets of sub-trees pruned, pruned for Merkle depth 1..3, and rebuilt unchanged.  Twins stand for the same level-0 tree (equal
+    get_hash(0), equal bits in the root, equal kind) but are different cells: different representation hash, different bytes in a bag.
+    Identical nodes are shared.  -> (nodes, roots, what) with roots = indices of the versions' roots (original first, twins adjacent)
+    and what[i] = description of version i.  The last nodes are ordinary cells referencing up to 4 versions each."""
+    size = size or rng.randrange(3, 9)
+    while True:
+        orig = DagBuilder()
+        if exotic:
+            r0 = gen_exotic_tree(rng, orig, 0, size)
+            if not orig.ok(r0):
+                continue
+            if orig.nodes[r0][0] != ORD:
+                r0 = orig.add(ORD, rand_bits(rng, rand_len(rng)), (r0,))
+        else:
+            for k, b, r in gen_ordinary_dag(rng, size, deep=rng.random() < 0.5):
+                orig.add(k, b, r)
+            r0 = len(orig.nodes) - 1
+        desc = [i for i in descendants(orig.nodes, r0) if orig.nodes[i][0] != PRUNED]
+        if desc and orig.ok(r0):
+            break
+    versions = [(set(), 1, 'original'), (set(), 1, 'rebuilt')]
+    for i in desc:
+        versions.append(({i}, 1, f'node {i} pruned'))
+    for _ in range(3):
+        ch = {i for i in desc if rng.random() < 0.4}
+        lvl = rng.choice([1, 1, 2, 3])
+        versions.append((ch, lvl, f'nodes {sorted(ch)} pruned for merkle depth {lvl}'))
+    nodes, index, roots, what = [], {}, [], []
+
+    def intern(node):
+        if node not in index:
+            index[node] = len(nodes)
+            nodes.append(node)
+        return index[node]
+
+    for chosen, lvl, name in versions:
+        db, r, pruned = prune_set(orig.nodes, orig.infos, r0, chosen, lvl)
+        if not db.ok(r):
+            continue
+        sub, new = sub_dag(db.nodes, [r])
+        m = {}
+        for j, (k, b, rr) in enumerate(sub):
+            m[j] = intern((k, b, tuple(m[x] for x in rr)))
+        roots.append(m[new[r]])
+        what.append(name)
+    # the versions' roots next to each other (no version is a descendant of another one), everything below them first
+    uniq = list(dict.fromkeys(roots))
+    order = [i for i in range(len(nodes)) if i not in set(uniq)] + uniq
+    pos = {old: k for k, old in enumerate(order)}
+    nodes = [(nodes[i][0], nodes[i][1], tuple(pos[j] for j in nodes[i][2])) for i in order]
+    roots = [pos[r] for r in roots]
+    grp = list(dict.fromkeys(roots))
+    rng.shuffle(grp)
+    for i in range(0, len(grp), 4):
+        nodes.append((ORD, rand_bits(rng, rng.choice([0, 1, 8, 13])), tuple(grp[i:i + 4])))
+    return nodes, roots, what
+
+
+def stored_depth_siblings(rng, n_parents, points=DEPTH_POINTS, nest=3):
+    """The cheap way to put ANY 2-byte depth next to any other: pruned branches STORE the depth they answer with.  One DAG: pruned
+    branches (masks 1, 3, 7, random hashes) whose stored depths are DEPTH_POINTS / byte-wise independent values, then ordinary parents
+    with 2-4 of them (and of earlier parents) in every order, and Merkle updates over two of them (children read one level higher).
+    -> (nodes, focus) with focus = the parents."""
+    db = DagBuilder()
+    pr = []
+    for d in points:
+        pr.append(db.add(PRUNED, pruned_bits(1, [rng.randbytes(32)], [d])))
+    for _ in range(12):
+        mask = rng.choice([1, 3, 3, 7, 2, 5])
+        n = popcount(mask)
+        pr.append(db.add(PRUNED, pruned_bits(mask, [rng.randbytes(32) for _ in range(n)], [bytewise_depth(rng) for _ in range(n)])))
+    focus = []
+    m1 = pr[:len(points)]
+    for a in m1:
+        for b in m1:
+            if byte_relation(db.infos[a].D[0], db.infos[b].D[0]) in ('><', '<>') or rng.random() < 0.1:
+                focus.append(db.add(ORD, rand_bits(rng, rng.choice([0, 1, 8])), (a, b)))
+    gen = {}                                     # parents of parents, at most `nest` generations (keeps every sub-DAG small)
+    for t in range(n_parents):
+        k = rng.choice([2, 2, 3, 4])
+        pool = pr + [f for f in focus[-20:] if db.ok(f) and gen.get(f, 0) < nest]
+        refs = [rng.choice(pool) for _ in range(k)]
+        if t % 4 == 3 and all(db.ok(r) for r in refs[:2]):
+            refs = refs[:2]
+            focus.append(db.add(MUPDATE, mupdate_bits(db.infos[refs[0]], db.infos[refs[1]]), refs))
+        else:
+            focus.append(db.add(ORD, rand_bits(rng, rng.choice([0, 1, 8, 500])), refs))
+        gen[focus[-1]] = 1 + max(gen.get(r, 0) for r in refs)
+    return db.nodes, focus
+
+
+def sibling_relation(depths):
+    """byte relation of the deepest sibling to the others: '><' if some sibling has a larger low byte than the deepest one (the bytes
+    cross), else the relation to the next deepest ('==' = the maximum occurs twice)"""
+    ds = sorted(depths, reverse=True)
+    rels = [byte_relation(ds[0], d) for d in ds[1:]]
+    return '><' if '><' in rels else rels[0]
